@@ -4,6 +4,8 @@
 (* Every rule is a straight-line program of operations                     *)
 (*   W x  (assign a fresh value to local x)      R x  (read local x)       *)
 (*   H    (hold: block on a gate)                                          *)
+(*   CF x (a conc block with a slow assignment to local x and a failing    *)
+(*        call: x is assigned, then the block - and the rule - fails)      *)
 (*   WI a (assign injected field a)              RI a (read injected a)    *)
 (* Every execution e of a rule (whatever model, call, goroutine or pool    *)
 (* instance runs it) has its own store, initially empty.  A read of a      *)
@@ -21,8 +23,10 @@ lvars == <<prog, ex, inj, lh>>
 
 NextOp(e) == prog[ex[e].rule][ex[e].pc + 1]
 HasNext(e) == ex[e].pc < Len(prog[ex[e].rule])
-Stuck(e) == /\ ~ex[e].ended /\ HasNext(e) /\ NextOp(e).k = "R"
-            /\ NextOp(e).name \notin DOMAIN ex[e].store
+Stuck(e) == /\ ~ex[e].ended
+            /\ \/ ex[e].failed
+               \/ /\ HasNext(e) /\ NextOp(e).k = "R"
+                  /\ NextOp(e).name \notin DOMAIN ex[e].store
 
 LBeginCore(p) ==
   /\ prog' = p /\ ex' = <<>> /\ inj' = <<>>
@@ -30,12 +34,12 @@ LBeginCore(p) ==
 EStartCore(e, r, q) ==
   /\ e \notin DOMAIN ex
   /\ r \in DOMAIN prog
-  /\ ex' = (e :> [rule |-> r, req |-> q, pc |-> 0, store |-> <<>>, ended |-> FALSE]) @@ ex
+  /\ ex' = (e :> [rule |-> r, req |-> q, pc |-> 0, store |-> <<>>, ended |-> FALSE, failed |-> FALSE]) @@ ex
   /\ UNCHANGED <<prog, inj>>
 
 \* operation number i of execution e was performed and produced / observed val
 EOpCore(e, i, val) ==
-  /\ e \in DOMAIN ex /\ ~ex[e].ended /\ HasNext(e) /\ i = ex[e].pc + 1
+  /\ e \in DOMAIN ex /\ ~ex[e].ended /\ ~ex[e].failed /\ HasNext(e) /\ i = ex[e].pc + 1
   /\ LET op == NextOp(e) IN
      CASE op.k = "W"  -> /\ ex' = [ex EXCEPT ![e].pc = i, ![e].store = (op.name :> val) @@ @]
                          /\ UNCHANGED inj
@@ -44,6 +48,8 @@ EOpCore(e, i, val) ==
                          /\ ex' = [ex EXCEPT ![e].pc = i]
                          /\ UNCHANGED inj
        [] op.k = "H"  -> /\ ex' = [ex EXCEPT ![e].pc = i] /\ UNCHANGED inj
+       [] op.k = "CF" -> /\ ex' = [ex EXCEPT ![e].pc = i, ![e].store = (op.name :> val) @@ @, ![e].failed = TRUE]
+                         /\ UNCHANGED inj
        [] op.k = "WI" -> /\ ex' = [ex EXCEPT ![e].pc = i]
                          /\ inj' = (op.name :> val) @@ inj
        [] op.k = "RI" -> /\ val = (IF op.name \in DOMAIN inj THEN inj[op.name] ELSE 0)
@@ -52,7 +58,7 @@ EOpCore(e, i, val) ==
   /\ UNCHANGED prog
 
 EEndCore(e) ==
-  /\ e \in DOMAIN ex /\ ~ex[e].ended /\ ~HasNext(e)
+  /\ e \in DOMAIN ex /\ ~ex[e].ended /\ ~ex[e].failed /\ ~HasNext(e)
   /\ ex' = [ex EXCEPT ![e].ended = TRUE]
   /\ UNCHANGED <<prog, inj>>
 
